@@ -55,6 +55,8 @@ class VDI(AlignedStream):
             elif block == SPARSE:
                 bytes_read.append(b"\x00" * read_len)
             else:
+                # Block pointers are unsigned on disk, the map is loaded as signed integers for the two markers above
+                block &= 0xFFFFFFFF
                 self.fh.seek(self.data_offset + (block * self.block_size) + block_offset)
                 bytes_read.append(self.fh.read(read_len))
 
